@@ -10,7 +10,7 @@ TECHNIQUE = ("Coq proofs over the LogSync state-machine model: script (what a si
              "for every interleaving), sent_ops_exact (= rows above the peer's height per configured log), joint invariant of two machines "
              "over FIFO queues for every schedule (received_exact, termination via deadlock freedom + decreasing measure), converge "
              "(heights after ingest = pointwise max); + differential correspondence with two real LogSync::run sessions over in-memory channels")
-LEVEL_TEXT = ("Theorems C19_script / C19_script_interleaving_independent / C19_sent_ops_exact / C19_received_exact / C19_converge / "
+LEVEL_TEXT = ("Theorems C19_script / C19_script_interleaving_independent / C19_sent_ops_exact / C19_received_exact(_wf) / C19_converge / "
               "C19_termination are proved in Coq, closed under the global context, for all replicas (any authors/logs/heights/pruned "
               "prefixes/gaps), all configurations and all schedules of the joint model; no bound. The model is tied to "
               "p2panda-sync/src/protocols/log_sync.rs, p2panda-core/src/logs.rs and the SQLite log store on every run: random replica "
@@ -18,7 +18,9 @@ LEVEL_TEXT = ("Theorems C19_script / C19_script_interleaving_independent / C19_s
               "sessions run against each other, and sink messages, OperationReceived events and heights after ingest are compared with the "
               "model's line; the oracle (expected_ops / grammar / pointwise-max heights) is evaluated on the implementation's observation.")
 LEVEL_NOTE = ("Hypotheses of the theorems: the store does not change during the session (C20 covers changes); row sizes > 0; operation ids "
-              "pairwise distinct over what the two sides send (received_exact); NoDup authors in the configuration (converge). Ingest of "
+              "pairwise distinct over what the two sides send (received_exact; derived in received_exact_wf from: id = function of "
+              "(author, log, seq) injective on the rows of both replicas, unique seqs per log, every author/log configured once); "
+              "NoDup authors in the configuration (converge). Ingest of "
               "received operations is modelled as adding the row (C01/C03 are about the ingest pipeline). Trusted: Coq kernel + vm_compute; "
               "hand-written model; SQLite; harness/python glue. Correspondence is differential testing.")
 ASSUMPTIONS = ["static stores during the session; positive row sizes; distinct operation ids; every configured log list non-empty",
@@ -26,7 +28,7 @@ ASSUMPTIONS = ["static stores during the session; positive row sizes; distinct o
 TRUSTED = ["modelled not verified: SQLite query semantics, CBOR decoding, ingest accepting received operations, tokio select! fairness"]
 RULE = ("quick: 160 random replica pairs drawn from a common universe of logs (1-4 authors x 1-2 logs, per side a window [lo..hi] of each log: "
         "absent / pruned prefix / behind / ahead / equal, 12% gaps; 20% of the cases with a different configuration on side B) + 8 fixed "
-        "boundary cases; thorough: 1500 pairs with logs up to 40 rows. non-trivial = the session completed and at least one operation was sent")
+        "boundary cases; thorough: 900 pairs with logs up to 32 rows. non-trivial = the session completed and at least one operation was sent")
 
 FIXED = [
     {"logs": [], "repa": [], "repb": []},
@@ -58,7 +60,7 @@ def window(rng, full, gaps=True):
 def gen(tier, rng):
     for c in FIXED:
         yield c
-    n, maxlen = (160, 7) if tier == "quick" else (1500, 40)
+    n, maxlen = (160, 7) if tier == "quick" else (900, 32)
     for _ in range(n):
         na = rng.randint(1, 4)
         authors = sorted(rng.sample(range(0, 6), na))
